@@ -242,7 +242,8 @@ def wide_pair(r, max_kids=30):
 
 
 NS = {"p": "urn:verif:p", "q": "urn:verif:q", "x": "http://verif.example/x"}
-ALIASES = {"p": ["p", "pt", "parts"], "q": ["q", "qq"], "x": ["x", "xh"]}
+# prefixes that end like the reserved ns<digits> form without being of that form are ordinary prefixes
+ALIASES = {"p": ["p", "pt", "parts", "tns1"], "q": ["q", "qq", "dns2"], "x": ["x", "xh", "axns10"]}
 
 
 def ns_pair(r, max_nodes=12, second_alias=False):
